@@ -1,5 +1,5 @@
 (* C02 — Reconciliation converges to exactly the desired pods and then goes quiet.  Statements only. *)
-From ASTS Require Import Base Slots Names World Reconcile ReconcileCheck PlanProofs ReconcileProofs ConvergeProofs Env ExampleWorld.
+From ASTS Require Import Base Slots Names World Reconcile ReconcileCheck PlanProofs ReconcileProofs ConvergeProofs Env TerminationProofs ExampleWorld.
 
 (* pods_converged s upd cnt slots pods (ConvergeProofs.v): every desired ordinal holds a pod that is created,
    not failed/succeeded, Running and Ready, not terminating, with identity and storage in order, and — when the
@@ -38,16 +38,81 @@ Theorem C02_converged_reconcile_leaves_pods_alone :
 Proof. exact converged_reconcile_leaves_pods_alone. Qed.
 Print Assumptions C02_converged_reconcile_leaves_pods_alone.
 
-(* (3) PARTIAL — what is NOT proved.  Full statement: for every WF world there is n <= bound(world) such that
-   n synchronous rounds (caches catch up; reconcile; terminating pods finish, live pods become Ready) reach a
-   world that is converged with status.replicas = readyReplicas = spec.replicas, after which a reconcile issues
-   no write at all (status and revisions included).  Proved: (1) progress of the pod phase — never stuck — and
-   (2) the pod phase is quiet exactly at the converged states; NOT proved: that progress terminates (a
-   decreasing measure over rounds), and quietness of the status / revision writes at the fixed point.  Both are
-   decided on the implementation by props/c02.py on every generated history (chaotic prefix of reconciles,
-   kubelet events, partial cache refreshes, transient faults, edits that stop; then the fair suffix): the set
-   must be converged, the status must be the census, and the last two reconciles must issue no write; the
-   environment model Env.v is compared with the real world after every operation inside coqc. *)
+(* (3) TERMINATION of the pod phase.  A ROUND (TerminationProofs.v) is what the fairness premise describes:
+   the reconcile's plan takes effect with no failure (a delete removes the pod of that name, an update stores
+   the repaired copy, a create adds the pod), terminating pods finish, created pods become Running and Ready,
+   the caches catch up.  wf pods: distinct ordinals, settled, no dead pod outside the desired set (the
+   premise's exclusion), canonical names, ordinals in int32.  mu pods: per desired ordinal 1 for a missing
+   pod, 2 for a failed one, 1 for a broken identity/storage plus 2 for an outdated revision at or above the
+   partition; plus 1 per pod outside the desired set.
+   (3a) whenever the planner finds something to do, the round strictly decreases mu (and keeps wf): *)
+Theorem C02_round_decreases :
+  forall s upd cnt slots,
+    0 <= cnt <= max_i32 + 1 -> s_deleting s = false -> NoDup (s_claims s) ->
+    (forall i, use_current s i = true -> i < umin_of s) ->
+    forall cur pods, wf s cnt slots pods ->
+      wf s cnt slots (round s upd cnt slots cur pods)
+      /\ (plan_acts s cur upd cnt slots pods <> [] -> mu s upd cnt slots (round s upd cnt slots cur pods) < mu s upd cnt slots pods).
+Proof.
+  intros s upd cnt slots H1 H2 H3 H4 cur pods W. split; [apply round_wf; assumption | apply round_decreases; assumption].
+Qed.
+Print Assumptions C02_round_decreases.
+
+(* (3b) hence from EVERY well-formed snapshot of every size, whatever current revision each round resolves
+   (curs), after at most mu(pods) rounds the pods are converged, the planner then finds nothing to do for any
+   current revision, and further rounds change nothing.  The hypothesis on use_current says that the revision
+   of a re-created pod does not depend on the stored status; it holds for every defaulted spec
+   (C02_defaulted_spec below). *)
+Theorem C02_pod_phase_converges :
+  forall s upd cnt slots,
+    0 <= cnt <= max_i32 + 1 -> s_deleting s = false -> NoDup (s_claims s) ->
+    (forall i, use_current s i = true -> i < umin_of s) ->
+    forall pods, wf s cnt slots pods -> forall curs : nat -> rinfo,
+    exists k, Z.of_nat k <= mu s upd cnt slots pods
+      /\ pods_converged s upd cnt slots (run s upd cnt slots curs k pods)
+      /\ (forall cur, plan_acts s cur upd cnt slots (run s upd cnt slots curs k pods) = [])
+      /\ (forall m, run s upd cnt slots curs (k + m) pods = run s upd cnt slots curs k pods).
+Proof. exact rounds_converge. Qed.
+Print Assumptions C02_pod_phase_converges.
+
+Theorem C02_defaulted_spec :
+  forall s, (String.eqb (s_strategy s) "RollingUpdate" = true -> s_rolling s <> None) ->
+  forall i, use_current s i = true -> i < umin_of s.
+Proof. exact use_current_defaulted. Qed.
+Print Assumptions C02_defaulted_spec.
+
+(* non-vacuity of (3): an outdated pod, a pod in a delete slot and a failed pod, ordinal 3 missing; wf holds,
+   mu = 6, and five rounds converge to web-0, web-2, web-3 at the update revision *)
+Definition tx_set := ex_set 3 (Some "[1]"%string) "OrderedReady" 2 0 (ex_status 3 "web-h1" "web-h1").
+Definition tx_upd := {| ri_name := "web-h2"; ri_tmpl := 2 |}.
+Definition tx_pods := [ex_pod 0 "web-h1" "Running" true; ex_pod 1 "web-h1" "Running" true; ex_pod 2 "web-h1" "Failed" false].
+Example C02_ex_wf : wf tx_set 4 [1] tx_pods /\ mu tx_set tx_upd 4 [1] tx_pods = 6.
+Proof.
+  split; [|reflexivity]. constructor.
+  - intros p q Hp Hq _ Ho.
+    destruct Hp as [<-|[<-|[<-|[]]]]; destruct Hq as [<-|[<-|[<-|[]]]]; try reflexivity; vm_compute in Ho; discriminate.
+  - intros p [<-|[<-|[<-|[]]]]; vm_compute; repeat split.
+  - intros p [<-|[<-|[<-|[]]]]; vm_compute; intros H; try reflexivity; discriminate.
+  - intros p [<-|[<-|[<-|[]]]]; vm_compute; split; discriminate.
+  - intros p [<-|[<-|[<-|[]]]]; reflexivity.
+Qed.
+Example C02_ex_run :
+  map (fun p => (p_name p, p_rev p)) (run tx_set tx_upd 4 [1] (fun _ => {| ri_name := "web-h1"; ri_tmpl := 1 |}) 5 tx_pods)
+  = [("web-2", "web-h2"); ("web-3", "web-h2"); ("web-0", "web-h2")]%string.
+Proof. vm_compute. reflexivity. Qed.
+
+(* (4) PARTIAL — what is NOT proved.  Full statement: for every WF world there is n <= bound(world) such that
+   n fair rounds reach a world that is converged with status.replicas = readyReplicas = spec.replicas, after
+   which a reconcile issues no write at all (status and revisions included).  Proved: (1)-(3) — the pod phase
+   is never stuck, is quiet exactly at the converged states, and reaches one in at most mu rounds.  NOT proved
+   in Coq: that the pods of the API world after a fair round of the FULL reconcile model (revision phase,
+   adoption, executor) are the pods of `round` — this step is evaluated, not proved: props/c02.py compares
+   `round` with the Env.v round on every generated settled world inside coqc; and quietness of the status /
+   revision writes at the fixed point.  Both are also decided on the implementation by props/c02.py on every
+   generated history (chaotic prefix of reconciles, kubelet events, partial cache refreshes, transient
+   faults, edits that stop; then the fair suffix): the set must be converged, the status must be the census,
+   and the last two reconciles must issue no write; the environment model Env.v is compared with the real
+   world after every operation inside coqc. *)
 Theorem C02_converges_partial_example :
   (* a concrete history in the model: scale-in at slot 1 with Parallel converges in two rounds and is then quiet *)
   let s := ex_set 3 (Some "[1]"%string) "Parallel" 1 0 (ex_status 3 "web-h1" "web-h1") in
